@@ -1,10 +1,13 @@
 import WuffsVerif.Common.Line
 import WuffsVerif.Model.Liveness
+import WuffsVerif.Model.Scratch
 /-! Line driver for C05.  Ops:
   live <nvars> <abstract body tokens…>   -> r [i,j,…]   (sorted resumable variable indexes)
 The body grammar is the one written by /repo/internal/cgen/verif_export_c05.go.
+  prog <ops> <accreg> <src sizes|-> <dst sizes|-> <hex>  -> st=… out=… ri=… acc=… susp=…
+    ops: `;`-separated  rd:<size>:<n>:<b|l>:<dst>  skip:<reg>  skip1  wr:<add|xor|fst>:<a>:<b>
 -/
-open WuffsVerif WuffsVerif.Line WuffsVerif.Liveness
+open WuffsVerif WuffsVerif.Line WuffsVerif.Liveness WuffsVerif.Scratch
 
 namespace C05Parse
 
@@ -105,8 +108,33 @@ end
 
 end C05Parse
 
+def parseSizes (s : String) : Option (List Nat) :=
+  if s == "-" then some [] else (s.splitOn ",").mapM String.toNat?
+
+def parsePOp (s : String) : Option POp :=
+  match s.splitOn ":" with
+  | ["rd", size, n, e, d] => do
+    let size ← size.toNat?; let n ← n.toNat?; let d ← d.toNat?
+    let be ← match e with | "b" => some true | "l" => some false | _ => none
+    pure (POp.rd ⟨size, n, be⟩ d)
+  | ["skip", r] => r.toNat?.map POp.skip
+  | ["skip1"] => some POp.skip1
+  | ["wr", f, a, b] => do
+    let f ← match f with | "add" => some BinF.add | "xor" => some BinF.xor | "fst" => some BinF.fst | _ => none
+    let a ← a.toNat?; let b ← b.toNat?
+    pure (POp.wr f a b)
+  | _ => none
+
 def c05Step (l : List String) : String :=
   match l with
+  | ["prog", ops, accreg, ss, ds, hex] =>
+    match (ops.splitOn ";").mapM parsePOp, accreg.toNat?, parseSizes ss, parseSizes ds, fromHex hex with
+    | some prog, some ar, some ss, some ds, some bs =>
+      let (st, s) := runProgram prog ss ds bs
+      let stS := match st with | PStatus.ok => "ok" | PStatus.shortRead => "$short_read"
+      let acc := match st with | PStatus.ok => getReg s.regs ar | _ => 0
+      s!"st={stS} out={toHex s.dst.out} ri={s.src.consumed} acc={acc} susp={s.src.susp + s.wsusp}"
+    | _, _, _, _, _ => "bad-op"
   | "live" :: n :: toks =>
     match n.toNat?, C05Parse.parseBlock toks with
     | some n, some (b, []) => "r " ++ showNatList (resumables n b)
